@@ -31,7 +31,7 @@ from ..translate import c14 as tr
 PROPERTY = "C14"
 THEOREM_MODULE = "NemoVerif.Theorems.C14"
 RULE = ("program: 1-2 dialog flows (distinct start intents) + 0-2 subflows over user/bot/execute/set/if-else/while/"
-        "break/continue/do, nesting <= 4, plus dedicated nested-`do` chain programs (depth 2-3, inner call in last position) and computation-loop programs (counters/accumulators, iterations without a blocking statement); history: produced by walking the program with the reference interpreter, "
+        "break/continue/do, nesting <= 4, plus dedicated nested-`do` chain programs (depth 2-3, inner call in last position) and computation-loop programs (counters/accumulators, iterations without a blocking statement); condensed re-entry histories (the start intent right after the flow completed or was aborted); history: produced by walking the program with the reference interpreter, "
         "following it or leaving it (other intent, other bot step, failed action, hide_prev_turn, restart) at a random "
         "point, then a random tail; decisions compared on every prefix. non-trivial = the program has a conditional or "
         "loop or subflow call AND the history reaches at least 3 decisions; distinct = distinct (program, history).")
@@ -603,6 +603,13 @@ class Ref:
             elif self.run and self.pending and self.pending[0] == "user" and ev["i"] in self.starts and self.starts[ev["i"]] != self.run[0] and not self.suspended:
                 self.suspended = True
                 self._start(self.starts[ev["i"]])
+            elif self.run and self.pending and self.pending[0] in ("bot", "act") and not self.suspended:
+                # left at a bot/execute statement: the flow (and the flows that called it) is aborted, i.e. over;
+                # another flow may start on this very event, the same flow only on a later one
+                gone = self.run[0]
+                self.run, self.pending = None, None
+                if ev["i"] in self.starts and self.starts[ev["i"]] != gone:
+                    self._start(self.starts[ev["i"]])
             elif self.run is None and ev["i"] in self.starts:
                 self._start(self.starts[ev["i"]])
             elif self.run is None:
@@ -614,11 +621,19 @@ class Ref:
                 self.abstain = True
             elif self.run and self.pending == ("bot", ev["i"]):
                 self._advance()
+            elif self.run and self.pending and self.pending[0] in ("bot", "act") and not self.suspended:
+                self.run, self.pending = None, None  # aborted
+            elif self.run is None:
+                pass
             else:
                 self.abstain = True
         elif k == "fin":
             if self.run and self.pending and self.pending[0] == "act" and self.pending[1] == ev["name"] and ev.get("ok", True):
                 self._advance()
+            elif self.run and self.pending and self.pending[0] in ("bot", "act") and not self.suspended:
+                self.run, self.pending = None, None  # aborted
+            elif self.run is None:
+                pass
             else:
                 self.abstain = True
 
@@ -779,6 +794,77 @@ def g_history(rng, flows, mode):
     return hist
 
 
+def g_reentry_history(rng, flows):
+    """Condensed histories (UserIntent / BotIntent / action events only, no Listen or utterance events in between)
+    with IMMEDIATE re-entry: the event right after the one on which a flow ended — by running to its last statement
+    or by being left at a bot/execute statement (aborted) — is the intent that starts the same flow again."""
+    hist = []
+    starts = [f["body"][0]["u"] for f in flows if not f["sub"]]
+    bots = sorted({s for f in flows for s in _bots(f["body"])})
+
+    def ref_now():
+        r = Ref(flows)
+        for ev in hist:
+            r.feed(ev)
+        return r
+
+    cur = rng.choice(starts)
+    hist.append({"e": "user", "i": cur})
+    reentries = 0
+    keep_ctx = rng.random() < 0.7
+    while len(hist) < 44:
+        r = ref_now()
+        d = r.decision()
+        if d is None:
+            break
+        step = [x for x in d if x[0] != "ctx"]
+        if keep_ctx:
+            for x in d:
+                if x[0] == "ctx":
+                    hist.append({"e": "ctx", "d": x[1]})
+        if not step:
+            if r.run is None:
+                if reentries >= 4:
+                    break
+                reentries += 1
+                if rng.random() < 0.8 or len(starts) == 1:
+                    hist.append({"e": "user", "i": cur})  # the same flow again, at once
+                else:
+                    cur = rng.choice(starts)
+                    hist.append({"e": "user", "i": cur})
+                continue
+            hist.append({"e": "user", "i": r.pending[1]})
+            continue
+        x = step[0]
+        leave = rng.random() < 0.22 and reentries < 4
+        if x[0] == "bot":
+            if leave:
+                reentries += 1
+                c = rng.random()
+                if c < 0.4:
+                    hist.append({"e": "user", "i": INTENTS_EXTRA[0]})
+                elif c < 0.7:
+                    hist.append({"e": "bot", "i": rng.choice(bots + ["zz other bot"])})
+                    if hist[-1]["i"] == x[1]:
+                        continue
+                else:
+                    hist.append({"e": "user", "i": cur})  # the start intent while the flow waits on a bot step …
+                hist.append({"e": "user", "i": cur})      # … and (again) right after it was aborted
+            else:
+                hist.append({"e": "bot", "i": x[1]})
+        else:
+            hist.append({"e": "start"})
+            if x[3] and rng.random() < 0.9:
+                hist.append({"e": "ctx", "d": [[x[3], rng.choice([{"i": 0}, {"i": 1}, {"i": 2}, True, False])]]})
+            if leave:
+                reentries += 1
+                hist.append({"e": "fin", "name": x[1], "ok": False})
+                hist.append({"e": "user", "i": cur})
+            else:
+                hist.append({"e": "fin", "name": x[1], "ok": True})
+    return hist
+
+
 def _intents(stmts):
     for s in stmts:
         if "u" in s:
@@ -818,6 +904,12 @@ def gen_cases(rng, tier):
             cases.append({"kind": kind, "flows": flows, "history": h, "seed": rng.randrange(1 << 30)})
     sub = random.Random(rng.randrange(1 << 30))
     cases.extend(g_llm_case(sub) for _ in range(n_llm))
+    sub3 = random.Random(rng.randrange(1 << 30))
+    n_re = 60 if tier == "quick" else 1200
+    for i in range(n_re):
+        flows = [g_program, g_program, g_chain_program, g_compute_program][i % 4](sub3, tier)
+        for _ in range(2):
+            cases.append({"kind": "fn", "flows": flows, "history": g_reentry_history(sub3, flows), "seed": sub3.randrange(1 << 30)})
     sub2 = random.Random(rng.randrange(1 << 30))
     for _ in range(n_comp):
         flows = g_compute_program(sub2, tier)
